@@ -87,7 +87,7 @@ def run(v):
                                   "--alphabet", os.path.join(SPEC, "alphabet.json"), "--out", trace,
                                   "--seed", v.seed, "--corpus", corp, "--fixtures", common.REPO,
                                   "--docs", 60000 if thorough else 6000,
-                                  "--prefix-sentences", 646 if thorough else 120,
+                                  "--prefix-sentences", 646 if thorough else 120, "--family-sentences", 646 if thorough else 220,
                                   "--fixture-cuts", 40 if thorough else 6,
                                   "--timeout-ms", 20000], timeout=7200)
     if rc != 0:
